@@ -33,6 +33,9 @@ pub struct Prepared {
     /// (error, panic, even a stall); the only thing that must not happen is a success that
     /// returns wrong data
     pub hard_fault: bool,
+    /// run this work as on a one-CPU host (the execution thread is pinned to one CPU, so
+    /// `available_parallelism()` answers 1) - for code that sizes its thread pools from it
+    pub one_cpu: bool,
 }
 
 pub trait TCheck: Sync {
@@ -124,6 +127,24 @@ impl OneRun {
     }
 }
 
+/// Pin the calling thread (and the execution thread it is about to spawn) to the first CPU of
+/// its current mask; returns the previous mask.
+fn pin_to_one_cpu() -> Option<libc::cpu_set_t> {
+    unsafe {
+        let mut old: libc::cpu_set_t = std::mem::zeroed();
+        if libc::sched_getaffinity(0, std::mem::size_of::<libc::cpu_set_t>(), &mut old) != 0 {
+            return None;
+        }
+        let first = (0..libc::CPU_SETSIZE as usize).find(|i| libc::CPU_ISSET(*i, &old))?;
+        let mut one: libc::cpu_set_t = std::mem::zeroed();
+        libc::CPU_SET(first, &mut one);
+        if libc::sched_setaffinity(0, std::mem::size_of::<libc::cpu_set_t>(), &one) != 0 {
+            return None;
+        }
+        Some(old)
+    }
+}
+
 pub fn run_once(check: &dyn TCheck, hooks: &THooks, prep: &Prepared, plan: Plan) -> OneRun {
     hooks.begin(&prep.knobs, prep.record_events);
     // pack uuids (and with them the order of the pack map) must not depend on what this process
@@ -132,9 +153,15 @@ pub fn run_once(check: &dyn TCheck, hooks: &THooks, prep: &Prepared, plan: Plan)
     let slot: Slot = Arc::new(Mutex::new(BodyReport::default()));
     let body = Arc::clone(&prep.body);
     let slot2 = Arc::clone(&slot);
+    let saved = if prep.one_cpu { pin_to_one_cpu() } else { None };
     let rep = exec::run_execution(plan, move || {
         body(&slot2);
     });
+    if let Some(mask) = saved {
+        unsafe {
+            libc::sched_setaffinity(0, std::mem::size_of::<libc::cpu_set_t>(), &mask);
+        }
+    }
     let (events, counts) = hooks.take();
     let report = slot.lock().unwrap().clone();
     let history_complaints = if matches!(rep.outcome, Outcome::Completed) {
